@@ -77,7 +77,7 @@ type mpStep struct {
 
 func runC06(c *Ctx) {
 	r := c.R
-	r.SetRule("random multipart histories (8-18 steps: initiate / upload-part / re-upload / complete / abort / get) over keys {mp/k1, mp/k2} with up to 3 simultaneous uploads per key, part numbers from {1,2,3,7,100,9999,10000}, part lists that are ascending subsets, permutations, contain unknown numbers, stale or garbage ETags, quoted and unquoted ETags, repeated numbers or are empty; after every step GET of both objects and ListParts of every pending upload are compared with MultipartModel; on all seven backend configurations; plus completes with a valid list that the backend refuses (fs: key below / above another key; mem, bolt, fs: bucket deleted and re-created), which must store nothing, leave ListParts unchanged and succeed with the full body when repeated after the obstacle is removed; distinct = (backend, sequence of (op, part-list kind, outcome))")
+	r.SetRule("random multipart histories (8-18 steps: initiate / upload-part / re-upload / complete / abort / get) over keys {mp/k1, mp/k2} with up to 3 simultaneous uploads per key, part numbers from {1,2,3,7,100,9999,10000}, part bodies of 0..70000 bytes, part lists that are ascending subsets, permutations, contain unknown numbers, stale or garbage ETags, quoted and unquoted ETags, repeated numbers or are empty; after every step GET of both objects and ListParts of every pending upload are compared with MultipartModel; on all seven backend configurations; plus completes with a valid list that the backend refuses (fs: key below / above another key; mem, bolt, fs: bucket deleted and re-created), which must store nothing, leave ListParts unchanged and succeed with the full body when repeated after the obstacle is removed; distinct = (backend, sequence of (op, part-list kind, outcome))")
 	nh := r.Pick(3000, 40000)
 	kinds := drv.AllKinds
 	r.Set("backends", kinds)
@@ -156,6 +156,10 @@ func runC06(c *Ctx) {
 					ln := 1 + rng.Intn(40)
 					if rng.Intn(25) == 0 {
 						ln = 70000
+					}
+					if rng.Intn(12) == 0 {
+						ln = 0 // a part may be empty ("part bodies of arbitrary ... sizes")
+						r.Count("empty_parts", 1)
 					}
 					body := gen.Body(rng, ln, gen.PatRandom, uint32(hi*1000+st))
 					trace = append(trace, mpStep{Op: "upload-part", Key: idKey[ui], Upload: ui, N: n, Len: ln})
@@ -354,7 +358,7 @@ func runC06(c *Ctx) {
 	r.Require("completes_invalid", 100)
 	r.Require("part_reuploads", 100)
 	r.Require("aborts", 100)
-	r.Assume("MultipartModel (DESIGN A.3); part lists with a repeated number or no parts are don't-care between rejection and concatenation; only the CompleteMultipartUploadResult ETag is judged against md5(concat)-N; part bodies are non-empty")
+	r.Assume("MultipartModel (DESIGN A.3); part lists with a repeated number or no parts are don't-care between rejection and concatenation; only the CompleteMultipartUploadResult ETag is judged against md5(concat)-N; part bodies of 0..70000 bytes")
 }
 
 // genPartList produces a part list of a random kind for a pending upload.
